@@ -132,7 +132,7 @@ CHECKS["C19"] = (
 
 CHECKS["C01"] = (
     "Coq compiler-correctness theorem: an execution model of the emitted code (Machine.v, one state change per emitted line of Transpile.tr) equals the documented semantics written as a direct big-step evaluator (RefSem.v) for every core program, fuel, state and flag set (induction on fuel and tree, one simulation lemma per construct) + three ties to the implementation evaluated in Coq (Machine vs real runs, RefSem vs real runs, exact text)",
-    "Machine-checked for every core program of any nesting depth, every input list and the nine flag sets: exec = eval on stack, printed text, variables, register, input cursors, errors and out-of-fuel (C01_compile_correct, C01_compile_correct_in_def, C01 for whole programs incl. start-up and implicit output), both evaluators leave the interpreter context balanced, and the regenerated template text/arity of every core element and modifier is the one the machine gives meaning to (C01_templates). Core: integer and string literals, 87 stack/arithmetic/logic/comparison/list elements with their number / string / list overloads, variables and function definitions anywhere (Python's scoping of the emitted names, closures with their cells, recursion by name), if/for/while, the four lambdas and the shorthand lambdas, named functions with numeric/named/* parameters, list literals, modifiers v & ~ ß ƒ ɖ ₌ ₍, early exits X / x (break, continue, early return, recursion; C01_early_exits).",
+    "Machine-checked for every core program of any nesting depth, every input list and the nine flag sets: exec = eval on stack, printed text, variables, register, input cursors, errors and out-of-fuel (C01_compile_correct, C01_compile_correct_in_def, C01 for whole programs incl. start-up and implicit output), both evaluators leave the interpreter context balanced, and the regenerated template text/arity of every core element and modifier is the one the machine gives meaning to (C01_templates). Core: integer and string literals, 94 stack/arithmetic/logic/comparison/list elements with their number / string / list overloads, variables and function definitions anywhere (Python's scoping of the emitted names, closures with their cells, recursion by name), if/for/while, the four lambdas and the shorthand lambdas, named functions with numeric/named/* parameters, list literals, modifiers v & ~ ß ƒ ɖ ₌ ₍, early exits X / x (break, continue, early return, recursion; C01_early_exits).",
     "Trusted: coqc kernel; CPython executing the emitted lines as Machine.v says is the principal modelled-not-verified link (checked by Machine-vs-implementation runs over generated programs x inputs x flags); element semantics are shared by both evaluators (their fidelity matters only for the ties); outside the core: the ghost variable and _ names, X in a while condition, string literals with escapes or non-ASCII text; lazily applied bodies with side effects are not compared (EStuck). Known finding: a function value as if-condition / for-iterable is not called first (Structures.md).",
     "DESIGN.md 7/C01",
 )
